@@ -138,6 +138,7 @@ TypeOK ==
 Init ==
     /\ nfiles \in 1..MaxFiles /\ post \in SUBSET PostUsed
     /\ requested \in {S \in SUBSET KindsUsed : S # {} /\ (Cardinality(S) <= MaxKinds \/ S = KindsUsed)}
+    /\ "h" \in requested => "c" \in requested          \* the header exists only as a part of a split C output
     /\ file = 0 /\ fstate = "idle" /\ rank = 0 /\ phase = NoPhase
     /\ errs = [f \in 1..(MaxFiles + 1) |-> 0]
     /\ printedError = FALSE /\ dying = FALSE
